@@ -486,11 +486,14 @@ def main(prop_id, tier, seed, runs=None, jobs=None, wall=None):
     }
     if hasattr(prop, "evidence_extra"):
         ev["coverage"].update(prop.evidence_extra(agg))
-    os.makedirs(EVID, exist_ok=True)
-    tmp = os.path.join(EVID, ".%s.tmp" % prop_id)
+    evid = EVID
+    if os.path.abspath(os.environ.get("VERIF_REPO", "/repo")) != "/repo":
+        evid = os.path.join(EVID, ".other-tree")       # evidence/ proper only ever describes runs against /repo itself
+    os.makedirs(evid, exist_ok=True)
+    tmp = os.path.join(evid, ".%s.tmp" % prop_id)
     with open(tmp, "w") as f:
         json.dump(ev, f, indent=1, default=_js)
-    os.replace(tmp, os.path.join(EVID, "%s.json" % prop_id))
+    os.replace(tmp, os.path.join(evid, "%s.json" % prop_id))
     print("%s tier=%s seed=%d runs=%d distinct=%d fingerprints=%d wall=%.1fs violations=%d known=%s exit=%d" % (
         prop_id, tier, seed, agg.evaluations, len(agg.shapes), len(agg.fingerprints), wall_s, n_viol, dict(known_tally), exit_code))
     return exit_code
